@@ -137,6 +137,7 @@ func run(tapeJSON json.RawMessage, res *core.Result) {
 		res.Verdict, res.Harness = "invalid", "client"
 		return
 	}
+	pol.ErrorSName = []string{"", "", "empty", "krbtgt"}[(tp.RunSeed>>7)%4] // form of the sname in the KDC's KRB-ERRORs
 	sim := refkdc.New("SIM.TEST", tp.RunSeed, pol)
 	other := refkdc.New("OTHER.TEST", tp.RunSeed+1, refkdc.Policy{CopyAddresses: true})
 	refkdc.Link(sim, other)
